@@ -62,19 +62,20 @@ PROPS["C03"] = {
     "title": "An accepted rule can always be evaluated (no panic after load)",
     "models": lambda tier: [
         {"module": "MC_Cond",
-         "constants": {"MaxLen": q(tier, 3, 4), "EmitRejLen": q(tier, 3, 4), "Wide": "TRUE", "Dev": DEV_COND},
+         "constants": {"MaxLen": q(tier, 3, 4), "EmitRejLen": q(tier, 3, 3), "Wide": "TRUE", "Dev": DEV_COND},
          "invariants": ["PrattIsRef", "RoundTrip", "Emit"],
          "forms": ["accepted", "rejected"], "workers": 8,
          "plan": {"tri": False, "sws": q(tier, "SOME", "ALL"), "adv": q(tier, 6, 16), "validate": True}},
     ],
     "gens": lambda tier: [{"topic": "adv", "n": q(tier, 120, 3000)}],
     "rules": ["load_outcome", "load_panic", "opt_panic", "match_panic", "validate_panic", "ser_panic"],
-    "chunk": 100,
+    "chunk": 1500,
 }
 
 PROPS["C12"] = {
     "title": "Loading, optimising and matching are deterministic and pure",
     "models": lambda tier: [],
+    "second_process": "reverse",
     "gens": lambda tier: [{"topic": "pure", "n": q(tier, 400, 8000)}],
     "rules": ["den", "print_differs", "opt_panic", "match_panic"],
     "chunk": 300,
